@@ -122,7 +122,7 @@ pub fn run(ctx: &RunCtx, caps: bool) -> Outcome {
     }
     {
         let lp = DiffRef { only_pos0: true, ..prop(caps) };
-        let long: Vec<String> = vec!["a".repeat(26), "a".repeat(30) + "b", "a".repeat(22) + "c", "ab".repeat(13), "aaac".to_string(), "abc".to_string()];
+        let long: Vec<String> = vec!["a".repeat(26), "a".repeat(30) + "b", "a".repeat(22) + "c", "ab".repeat(13), "ba".repeat(15) + "!", "ba".repeat(12) + "c", "aaac".to_string(), "abc".to_string()];
         if !stage(ctx, &mut o, &lp, "loops around committing constructs x long texts (offset 0)", &gen::loop_commit_products(), &long) {
             return o;
         }
